@@ -108,6 +108,8 @@ def check(ctx):
         _store_rule(ctx, ctx.rule("S1", "[shared with C02/C03] key and certificate are installed on every successful attempt, after validation"), _rtr(prog))
     from . import c10 as _c10
     ctx.shared("C10", _c10.order_rules)
+    from . import c03 as _c03
+    ctx.shared("C03", _c03.no_discarded_results)     # "failure whenever any step failed": no step's error is dropped unexamined
     cargo = tomllib.load(open(os.path.join(ctx.repo, "Cargo.toml"), "rb"))
     ctx.notes.append("release profile panic = %s" % cargo.get("profile", {}).get("release", {}).get("panic", "unwind"))
     R1 = ctx.rule("R1", "every panic source reachable from MainEventLoop::run is discharged (A1-A5) or allow-listed with a reason; a new one is a violation")
@@ -305,8 +307,12 @@ FROZEN_LOOPS = {
 }
 
 
-def check_loops(ctx, long_polls):
+def check_loops(ctx, long_polls=None):
     prog = ctx.prog
+    if long_polls is None:
+        # called as a shared rule group: the long pauses of renew_certificate are recomputed here
+        rb_ = prog.async_body("acmed::main_event_loop::renew_certificate")
+        long_polls = [p_ for c_, pbs_, lb_ in sleep_sites(rb_) if lb_ is not None and lb_ >= 1 and pbs_ for p_ in pbs_]
     # an attempt that waits for ever on a lock neither ends nor reports: the lock discipline of C12 (order Account -> Endpoint, no
     # re-acquisition of a held class) is a necessary condition of `ends in bounded time` here too
     ctx.rule("L1", "lock order Account -> Endpoint at every acquisition (shared with C12.L1)")
@@ -315,8 +321,21 @@ def check_loops(ctx, long_polls):
     lock_rules(ctx)
     # a step `failed` also when its hook process was killed: the exit-status rule of C10.R2 (shared)
     R8 = ctx.rule("R8", "a hook counts as succeeded only when its exit status is success() (or allow_failure): signal deaths are failures (shared with C10.R2)")
-    from .c10 import status_rule
+    from .c10 import child_io_rules, status_rule
     status_rule(ctx, R8)
+    child_io_rules(ctx, R8)        # a hook that waits for EOF on its stdin must see it: the attempt ends in bounded time
+    # polling waits are the documented constant: no wait taken from what the CA says (a Retry-After of a day would hold the endpoint lock,
+    # and with it every other certificate, for a day)
+    for fn_ in ("acmed::acme_proto::http::pool_authorization", "acmed::acme_proto::http::pool_order"):
+        pb_ = prog.async_body(fn_)
+        sl_ = [c for c in pb_.calls if c.bb in pb_.live_blocks() and (c.name or "") in ("std::thread::sleep", "std::thread::functions::sleep", "tokio::time::sleep::sleep")]
+        ctx.floor(R8, "pause between polls in %s" % fn_.rsplit("::", 1)[1], len(sl_), 1)
+        for c in sl_:
+            src = arg_origins(c, 0)
+            foreign = sorted({x.name for x in src.calls if not (x.name or "").startswith(("core::time::Duration::", "core::cmp::"))})
+            items = {k_.get("item") for k_ in src.consts if k_.get("item")}
+            ctx.require(R8, not foreign and not [l for l in src.leaves if l.startswith(("param:", "upvar:"))] and "acmed::DEFAULT_POOL_WAIT_SEC" in items, c.where(),
+                        "%s waits DEFAULT_POOL_WAIT_SEC between polls, a constant (also derived from: %s)" % (fn_.rsplit("::", 1)[1], foreign), [fn_, "poll-wait-constant"])
     R6 = ctx.rule("R6", "every loop reachable from renew_certificate is finite-iterator-driven, an await loop, or a frozen loop whose bound argument is checked; no recursion")
     reach = prog.reach([RUN + "::{closure#0}"])
     rec = recursive_sccs(prog, reach)
